@@ -149,7 +149,7 @@ def run(tier, out, replay=None):
     rng = common.rng_for(out.seed, "c01")
     thorough = tier == "thorough"
     global MAXV
-    MAXV = 10 if thorough else 9
+    MAXV = 11 if thorough else 10
     try:
         if not replay:
             cfgs = [("Reduce_quick.cfg", True), ("Reduce_neg.cfg", False)]
@@ -170,7 +170,7 @@ def run(tier, out, replay=None):
             out.set("reduce_local_lemma", "holds" if rl.completed and not rl.errors else "FAILED")
             if not rl.completed:
                 out.violation("spec:ReduceLocal", "spec-level ReduceLocal", rl.stdout[-1500:])
-        ncases = 2500 if thorough else 260
+        ncases = 4000 if thorough else 450
         nbig = 600 if thorough else 80
         cases = [gen_case(rng) for _ in range(ncases)] + [gen_case(rng, big=True) for _ in range(nbig)]
         if replay:
